@@ -138,9 +138,9 @@ class TwinG(genobj.G):
     """genobj.G whose names and values pass through a Mapping; the base class consumes the same random draws in
     both builds, so the two objects have the same shape."""
 
-    def __init__(self, rng, mapping, mode, **kw):
+    def __init__(self, rng, mapping, mode, wrap_str=False, **kw):
         super().__init__(rng, weird_names=False, special_values=False, **kw)
-        self.mp, self.mode = mapping, mode
+        self.mp, self.mode, self.wrap_str = mapping, mode, wrap_str
 
     def name(self):
         return self.mp.name(super().name(), self.mode)
@@ -175,18 +175,24 @@ class TwinG(genobj.G):
         v = super().pyvalue()
         if isinstance(v, str) and v in ("*", ""):
             v = "x"
-        return self.mp.value(v, self.mode)
+        v = self.mp.value(v, self.mode)
+        if self.wrap_str and isinstance(v, str):
+            return T.ValueWrapper(v)       # a bare str handed to select() would be a column name
+        return v
 
     def pyvalue_simple(self):
-        return self.mp.value(super().pyvalue_simple(), self.mode)
+        v = self.mp.value(super().pyvalue_simple(), self.mode)
+        if self.wrap_str and isinstance(v, str):
+            return T.ValueWrapper(v)
+        return v
 
 
-def build_twin(make, seed, salt, names, values):
+def build_twin(make, seed, salt, names, values, wrap_str=False):
     """make(g) -> object.  Returns (objA, objB, mapping) or None when a build raises."""
     mp = Mapping(salt, names=names, values=values)
     out = {}
     for mode in ("B", "A"):
-        g = TwinG(random.Random(seed), mp, mode)
+        g = TwinG(random.Random(seed), mp, mode, wrap_str=wrap_str)
         try:
             out[mode] = make(g)
         except Exception as e:  # noqa
